@@ -1934,6 +1934,45 @@ CK_RV SoftHSM::C_SetAttributeValue(CK_SESSION_HANDLE hSession, CK_OBJECT_HANDLE 
 	return rv;
 }
 
+// Compare a stored attribute map (CKA_WRAP_TEMPLATE, CKA_UNWRAP_TEMPLATE) with an array of attributes
+static bool matchAttributeMap(const std::map<CK_ATTRIBUTE_TYPE,OSAttribute>& map, CK_ATTRIBUTE_PTR pAttrs, CK_ULONG ulLen)
+{
+	if (ulLen % sizeof(CK_ATTRIBUTE) != 0) return false;
+	CK_ULONG ulAttrs = ulLen / sizeof(CK_ATTRIBUTE);
+	if (ulAttrs != map.size()) return false;
+	if (ulAttrs != 0 && pAttrs == NULL_PTR) return false;
+
+	for (CK_ULONG i = 0; i < ulAttrs; ++i)
+	{
+		std::map<CK_ATTRIBUTE_TYPE,OSAttribute>::const_iterator it = map.find(pAttrs[i].type);
+		if (it == map.end()) return false;
+		if (pAttrs[i].ulValueLen != 0 && pAttrs[i].pValue == NULL_PTR) return false;
+
+		const OSAttribute& attr = it->second;
+		if (attr.isBooleanAttribute())
+		{
+			if (pAttrs[i].ulValueLen != sizeof(CK_BBOOL)) return false;
+			if (attr.getBooleanValue() != (*(CK_BBOOL*)pAttrs[i].pValue != CK_FALSE)) return false;
+		}
+		else if (attr.isUnsignedLongAttribute())
+		{
+			if (pAttrs[i].ulValueLen != sizeof(CK_ULONG)) return false;
+			if (attr.getUnsignedLongValue() != *(CK_ULONG_PTR)pAttrs[i].pValue) return false;
+		}
+		else if (attr.isByteStringAttribute())
+		{
+			ByteString value((const unsigned char*)pAttrs[i].pValue, pAttrs[i].ulValueLen);
+			if (attr.getByteStringValue() != value) return false;
+		}
+		else
+		{
+			return false;
+		}
+	}
+
+	return true;
+}
+
 // Initialise object search in the specified session using the specified attribute template as search parameters
 CK_RV SoftHSM::C_FindObjectsInit(CK_SESSION_HANDLE hSession, CK_ATTRIBUTE_PTR pTemplate, CK_ULONG ulCount)
 {
@@ -2045,6 +2084,24 @@ CK_RV SoftHSM::C_FindObjectsInit(CK_SESSION_HANDLE hSession, CK_ATTRIBUTE_PTR pT
 							if (bsAttrValue != bsTemplateValue)
 								break;
 						}
+					}
+					else if (attr.isMechanismTypeSetAttribute())
+					{
+						// The template holds an array of mechanism types
+						if (pTemplate[i].ulValueLen % sizeof(CK_MECHANISM_TYPE) != 0)
+							break;
+						std::set<CK_MECHANISM_TYPE> templateSet;
+						CK_MECHANISM_TYPE_PTR pMechs = (CK_MECHANISM_TYPE_PTR) pTemplate[i].pValue;
+						for (CK_ULONG j = 0; j < pTemplate[i].ulValueLen / sizeof(CK_MECHANISM_TYPE); ++j)
+							templateSet.insert(pMechs[j]);
+						if (attr.getMechanismTypeSetValue() != templateSet)
+							break;
+					}
+					else if (attr.isAttributeMapAttribute())
+					{
+						// The template holds an array of attributes
+						if (!matchAttributeMap(attr.getAttributeMapValue(), (CK_ATTRIBUTE_PTR) pTemplate[i].pValue, pTemplate[i].ulValueLen))
+							break;
 					}
 					else
 						break;
